@@ -151,6 +151,19 @@ theorem SVal.bok_of_not_lcb {o : SVal} (h : ∀ l, o.toVal ≠ .lcb l) : o.bok =
     · exact (h l rfl).elim
     · rfl
 
+/-- an object that, when it is a `LinCombBool`, holds 0 or 1 -/
+theorem SVal.bok_of_lcb_bool {o : SVal} (h : ∀ l, o.toVal = .lcb l → BoolLC l) : o.bok = true := by
+  cases o with
+  | pub c => rfl
+  | sc k l id =>
+    cases k
+    · rfl
+    · have := h l rfl
+      unfold BoolLC at this
+      simp only [SVal.bok, Bool.or_eq_true, beq_iff_eq]
+      exact this
+    · rfl
+
 theorem SVal.bok_bool {l : LinComb} {id : Option Nat} (h : BoolLC l) : (SVal.sc .bool l id).bok = true := by
   unfold BoolLC at h
   simp only [SVal.bok, Bool.or_eq_true, beq_iff_eq]
